@@ -13,10 +13,16 @@
 From PV Require Import Lib.Bytes.
 Open Scope N_scope.
 
-(* ---------- the file system: finite map path -> (bytes, mode) ---------- *)
+(* ---------- the file system: finite map path -> (kind, bytes, mode) ---------- *)
 
 Definition path := str.
-Record file := mkfile { f_data : str; f_mode : N }.
+(* what a directory entry is.  The save protocol itself only ever creates regular
+   files; the other kinds occur as FOREIGN entries of the initial tree (in particular
+   at a name F.pkglint.tmp).  For a directory f_data is [] (its members are entries of
+   their own), for a symbolic link f_data is the link text (lstat view: the link itself,
+   never its target). *)
+Inductive kind := KReg | KDir | KSymlink.
+Record file := mkfile { f_kind : kind; f_data : str; f_mode : N }.
 Definition fsmap := list (path * file).
 
 Fixpoint lookup (p : path) (m : fsmap) : option file :=
@@ -89,15 +95,16 @@ Definition step (s : state) (o : op) : state * option errno :=
   match o with
   | Open fd p perm =>
     let f := match lookup p (st_fs s) with
-             | Some old => mkfile [] (f_mode old)                    (* O_TRUNC keeps the mode *)
-             | None => mkfile [] (N.ldiff perm (st_umask s))         (* O_CREAT: perm &^ umask *)
+             | Some old => mkfile (f_kind old) [] (f_mode old)       (* O_TRUNC keeps the mode *)
+             | None => mkfile KReg [] (N.ldiff perm (st_umask s))    (* O_CREAT: perm &^ umask *)
              end in
     (mkstate (set p f (st_fs s)) (fd_set fd (Some p) (st_fds s)) (st_umask s), None)
   | OpenExcl fd p perm =>
     match lookup p (st_fs s) with
-    | Some _ => (s, Some EEXIST)                                    (* O_EXCL: never touches an existing file *)
+    | Some _ => (s, Some EEXIST)        (* O_EXCL: an existing entry of ANY kind (regular, empty or not,
+                                           directory, symbolic link -- also a dangling one) is never touched *)
     | None =>
-      (mkstate (set p (mkfile [] (N.ldiff perm (st_umask s))) (st_fs s))
+      (mkstate (set p (mkfile KReg [] (N.ldiff perm (st_umask s))) (st_fs s))
                (fd_set fd (Some p) (st_fds s)) (st_umask s), None)
     end
   | Write fd data =>
@@ -107,7 +114,7 @@ Definition step (s : state) (o : op) : state * option errno :=
     | Some (Some p) =>
       match lookup p (st_fs s) with
       | None => (s, Some EBADF)
-      | Some f => (mkstate (set p (mkfile (f_data f ++ data) (f_mode f)) (st_fs s)) (st_fds s) (st_umask s), None)
+      | Some f => (mkstate (set p (mkfile (f_kind f) (f_data f ++ data) (f_mode f)) (st_fs s)) (st_fds s) (st_umask s), None)
       end
     end
   | Close fd =>
@@ -115,7 +122,7 @@ Definition step (s : state) (o : op) : state * option errno :=
     | None => (s, Some EBADF)
     | Some _ => (mkstate (st_fs s) (fd_remove fd (st_fds s)) (st_umask s), None)
     end
-  | Rename a b =>
+  | Rename a b =>                         (* kind-agnostic: the protocol renames a regular temporary file it created onto the file it loaded; a directory as rename TARGET is outside the model (checks/C05.json, assumptions) *)
     match lookup a (st_fs s) with
     | None => (s, Some ENOENT)
     | Some f =>
@@ -125,7 +132,7 @@ Definition step (s : state) (o : op) : state * option errno :=
   | Chmod p mode =>
     match lookup p (st_fs s) with
     | None => (s, Some ENOENT)
-    | Some f => (mkstate (set p (mkfile (f_data f) mode) (st_fs s)) (st_fds s) (st_umask s), None)
+    | Some f => (mkstate (set p (mkfile (f_kind f) (f_data f) mode) (st_fs s)) (st_fds s) (st_umask s), None)
     end
   | Unlink p =>
     match lookup p (st_fs s) with
